@@ -273,6 +273,9 @@ let oev_of_line (l : string) : oev option =
   | "A" :: r :: _ -> Some (ObAct (r = "ok"))
   | "X" :: t :: _ -> Some (ObPop (nat_of_int (int_of_string t)))
   | "Q" :: _ -> Some ObQuiet
+  | "F" :: t :: on :: now :: start :: limit :: _ ->
+      let onk = (try int_of_string (String.sub on 0 (String.length on - 1)) with _ -> 0) in
+      Some (ObFire (nat_of_int (int_of_string t), nat_of_int onk, z_of_int (int_of_string now), z_of_int (int_of_string start), z_of_int (int_of_string limit)))
   | _ -> None
 let oracle_main cases_path trace_path =
   (* traces per case *)
